@@ -69,6 +69,7 @@ def run(ctx, run):
     _feed_callback(ctx, run, P.need("vbi_dvb_mux_feed", MUX))
     _raw_left_consistent(ctx, run, P.need("generate_pes_packet", MUX))
     _header_lookahead(ctx, run)
+    _rejection_traceless(ctx, run, P.need("vbi_dvb_mux_feed", MUX))
 
 
 def _store_idx(f, lhs, base_name):
@@ -492,3 +493,38 @@ def _header_lookahead(ctx, run):
         run.violation("RF-IVL", key, "the PES header validation reads byte %d of the header (the data_identifier) but only %d bytes of "
                       "look-ahead are requested: when a chunk boundary falls inside the header the byte is read before it has "
                       "arrived and the whole packet is discarded" % (need, c), ex.loc(g, i), witness={"max_offset": need, "lookahead": c})
+
+
+def _rejection_traceless(ctx, run, f):
+    """A frame vbi_dvb_mux_feed rejects must leave no trace in the transport stream state: on the
+    paths to `return FALSE` nothing but generate_pes_packet itself may touch the multiplexer - in
+    particular not vbi_dvb_mux_reset (), which steps the continuity counter back."""
+    run.touch(f)
+    P = ctx.prog
+    rets = [(b, i) for b, i in flow.all_events(f) if f.exprs[i]["k"] == "ret" and f.exprs[i].get("c") and ex.const(f, f.exprs[i]["c"][0]) == 0]
+    if not rets:
+        raise AnalysisBroken("vbi_dvb_mux_feed has no FALSE exit")
+    n = 0
+    for b, i in rets:
+        # events in the blocks dominated by a failing test and leading only to this return: the return's own block
+        n += 1
+        bad = None
+        for j in flow.events(f, b):
+            e = f.exprs[j]
+            if e["k"] == "call" and e.get("callee") and e["callee"] not in ("generate_pes_packet", "valid_sampling_par", "_vbi_log_printf"):
+                t = P.func_for(f, e["callee"])
+                if t is not None and any(tk != "ALL" and tk[0] == "fld" and tk[1] == "_vbi_dvb_mux" for tk in ctx.sums.writes.get(t.key, set())):
+                    bad = j
+            for lhs, var, op, rhs in flow.stores(f, j) if flow.is_event(f, j) else []:
+                if lhs is not None:
+                    l = f.exprs[ex.skip(f, lhs)]
+                    if l["k"] == "mem" and l.get("in") == "_vbi_dvb_mux" and l["member"] in ("continuity_counter", "packet"):
+                        bad = j
+        key = "RF-NOWRITE:vbi_dvb_mux_feed:rejection-traceless:%d" % n
+        if bad is None:
+            run.holds("RF-NOWRITE", key, "the failing exit touches no transport stream state", ex.loc(f, i))
+        else:
+            run.violation("RF-NOWRITE", key, "on a rejection path `%s` modifies the multiplexer (continuity counter / packet state): the "
+                          "next accepted frame starts with a repeated continuity counter and a conforming demultiplexer drops it"
+                          % ex.pretty(f, bad)[:60], ex.loc(f, bad), witness={"function": f.name})
+    run.floor("failing exits of vbi_dvb_mux_feed", n, 3)
